@@ -13,7 +13,7 @@ CHUNK = 2
 CASE_TIMEOUT = 600
 REQUIRED_COUNTERS = ["energy_flag_combinations", "action_flag_combinations", "latency_checks", "usage_checks"]
 RULE = ("Mappings objects returned for specs of the small-spec family (1-3 Einsums; Einsums named like their output tensor "
-        "as the concise notation does; n_instances > 1; ENERGY|LATENCY(|RESOURCE_USAGE) so that results have several "
+        "as the concise notation does; n_instances > 1; leak power on 60% of the architectures; ENERGY|LATENCY(|RESOURCE_USAGE) so that results have several "
         "rows), with eval_in_detail True and False; columns are parsed by an independent splitter and every energy() / "
         "actions() / latency() / resource_usage() answer for every per_* flag combination is recomputed from the columns: "
         "total == Total column == sum of every breakdown, each breakdown key == own grouping. non-trivial = result has "
